@@ -33,7 +33,9 @@ META = {
     "applicability logic, the tolerance arithmetic and the sqrt(eps) bound of the one-sided approach.",
     "note": "Trusted: TLC/SANY, SymPy's exact arithmetic and 50-digit evalf of sqrt/log/atan, numpy for the lambdify family. "
     "s = 0 (pole of q^2, 0/0 for equal masses) is an observation only. Lambdified values at s < 0 are on the branch cut of "
-    "sqrt and only logged. Known finding: equal-mass continuation != Chew-Mandelstam for s < 0.",
+    "sqrt, and lambdified values within 1e-3 of a threshold are only logged. Two derived laws are not sentences of C11 and carry the "
+    "signature prefix 'derived:': X(s,m1,m2) = X(s,m2,m1) for all five variants, and regularity of the S-wave Chew-Mandelstam factor at "
+    "s = 0 for unequal masses (its two 1/s terms cancel). Known finding: equal-mass continuation != Chew-Mandelstam for s < 0.",
     "design_ref": "DESIGN.md §4 C11",
 }
 
